@@ -34,7 +34,8 @@ func vhSum(b []byte) []byte { d := sha256.Sum256(b); return d[:] }
 // the same identity, team, flags, limits, code slots and per-component
 // digests, and Verify reaches the CMS stage exactly when the components
 // handed to it are the signed ones (one changed byte in the Info.plist,
-// resources, DMG header, requirements or entitlements is named as mismatch).
+// resources or DMG header, a changed entitlement byte, and an entitlement or
+// requirements blob REMOVED from the signature are each named as mismatch).
 func VH_C01_CodeDirectoryRoundTrip() {
 	p := &SignatureParams{HashFunc: crypto.SHA256}
 	names := vhConcretize(vhInt("names", 0, 2), 3) // identity/team lengths 0/0, 1/2, 3/0
@@ -124,10 +125,32 @@ func VH_C01_CodeDirectoryRoundTrip() {
 	_, err = Verify(blob, VerifyParams{InfoPlist: info, Resources: res, RepSpecific: rep})
 	vhAssert(err != nil && strings.HasPrefix(err.Error(), "signature wrapper not found"), "component-hashes-accepted")
 	// one component altered
-	which := vhConcretize(vhInt("altered", 0, 2), 3)
+	which := vhConcretize(vhInt("altered", 0, 5), 6)
 	vp := VerifyParams{InfoPlist: info, Resources: res, RepSpecific: rep}
 	var label string
+	// embedded components: dropped from the signature, or one byte changed
+	rebuild := func(drop csMagic, flip bool) []byte {
+		var kept []superItem
+		for _, it := range all {
+			if it.magic == drop && !flip {
+				continue
+			}
+			if it.magic == drop && flip {
+				d := append([]byte{}, it.data...)
+				d[len(d)-1] ^= vhU8("flip") | 1
+				it.data = d
+			}
+			kept = append(kept, it)
+		}
+		return marshalSuperBlob(csEmbeddedSignature, kept)
+	}
 	switch {
+	case which == 3 && entBlob != nil:
+		blob, label = rebuild(csEntitlement, false), "entitlements"
+	case which == 4 && reqBlob != nil:
+		blob, label = rebuild(csRequirements, false), "requirements"
+	case which == 5 && entBlob != nil:
+		blob, label = rebuild(csEntitlement, true), "entitlements"
 	case which == 0 && info != nil:
 		vp.InfoPlist, label = append([]byte("x"), info[1:]...), "info_plist"
 	case which == 1 && res != nil:
